@@ -18,8 +18,12 @@ ASSUME = [
     "media messages belong to the optional media module: with the module left out they produce nothing, incl. no "
     "receipt (C06 off-is-silent, theorem C07_media_off_silent)",
     "the encryption layers' own key upload/fetch iq after an encrypt notification is not an answer and is ignored",
-    "the model describes the code with fixes/C07-encrypt-ack-participant.patch applied; open finding: payload with "
-    "sender-key distribution plus unpresentable content gets no receipt (theorem C07_unsupported_with_skdm_refuted)",
+    "the model describes the code with fixes/C07-encrypt-ack-participant.patch and "
+    "fixes/C07-unsupported-with-skdm-receipt.patch applied (witnesses of the unrepaired code: "
+    "C07_notification_ack_unrepaired_refuted, C07_unsupported_with_skdm_refuted)",
+    "histories: 40 (quick) / 600 (thorough) random sequences of 6-16 answer-bearing stanzas through ONE stack instance, "
+    "with earlier ids re-used by other stanzas and whole stanzas delivered again, compared step by step with the "
+    "model's run_trace and judged by the per-stanza oracle (theorems C07_*_history)",
 ]
 
 
@@ -38,6 +42,7 @@ def run(ctx):
     stats = C.new_stats()
     nvec = 6 if ctx.tier == "quick" else 30
     C.sweep(ctx, model, table, select, nvec, profile, stats, judge_answers=True)
+    C.history_sweep(ctx, model, select, 40 if ctx.tier == "quick" else 600, stats, judge_answers=True)
     if model:
         model.close()
         ctx.ties["correspondence"] = "ok" if stats["mismatches"] == 0 else "broken"
@@ -56,6 +61,8 @@ def run(ctx):
                                            set(k["c07"] for k in sel))
     ctx.coverage["input_distribution"] = {"module_selections": 16, "with_and_without_encryption_layers": 2,
                                           "field_vectors_per_cell": nvec}
+    ctx.coverage["histories_on_one_stack"] = {"histories": stats.get("histories", 0), "steps": stats.get("history_steps", 0),
+                                              "steps_reusing_an_earlier_id_or_stanza": stats.get("history_id_reuses", 0)}
     ctx.coverage["exhaustive"] = False
     for k in sel[::9]:
         obj = k["gen"](random.Random(ctx.seed))
